@@ -354,8 +354,10 @@ def run_smt(engine, repo, tier, scratch):
                 env["CARGO_NET_OFFLINE"] = "true"
                 env.pop("RUSTFLAGS", None)
                 t = subprocess.run(["cargo", "test", "--offline", "--test", "glue_replay"], cwd=w, env=env, stdout=subprocess.PIPE, stderr=subprocess.STDOUT, text=True)
-                ran = "test result:" in t.stdout
-                v["reproduced"] = ran and "test result: FAILED" in t.stdout
+                # a failing scenario may abort the test process (std's unchecked-precondition checks), so
+                # "the test binary ran and did not exit cleanly" is the criterion, not a result line
+                ran = "Running tests/glue_replay.rs" in t.stdout
+                v["reproduced"] = ran and t.returncode != 0
                 v["replay_detail"] = [l for l in t.stdout.splitlines() if "panicked" in l or "test result" in l or l.startswith("test ")][:20]
                 v["replay_harness"] = "harness/native/glue_replay.rs (cargo test --test glue_replay)"
             elif harness:
